@@ -93,9 +93,9 @@ Definition chk_client_chat (stream : bool) (t : ptable) (tools : bool) (o : rout
                      else http_as_stream (chat_nonstream (P_of t) tools o)) got err.
 
 (** api.Client against scripted lines: delivered (done flag, length) and error class
-    0 = nil, 1 = server error message, 2 = unmarshal, 3 = token too long, 4 = status *)
+    0 = nil, 1 = server error message, 2 = unmarshal, 3 = token too long, 4 = status, 5 = transport (unexpected EOF) *)
 Definition cres_code (r : cres) : N :=
-  match r with COk => 0 | CFail (EServer _) => 1 | CFail EUnmarshal => 2 | CFail ETooLong => 3 | CFail EStatus => 4 end%N.
+  match r with COk => 0 | CFail (EServer _) => 1 | CFail EUnmarshal => 2 | CFail ETooLong => 3 | CFail EStatus => 4 | CFail ETransport => 5 end%N.
 Definition eqb_line (a b : line) : bool :=
   match a, b with
   | LMsg n1 d1, LMsg n2 d2 => N.eqb n1 n2 && Bool.eqb d1 d2
@@ -104,3 +104,13 @@ Definition eqb_line (a b : line) : bool :=
 Definition chk_client_lines (max : N) (status : Z) (ls : list line) (got : list line) (code : N) : bool :=
   let '(d, r) := client_stream true max status ls in
   eqb_list eqb_line d got && N.eqb (cres_code r) code.
+
+(** the same with a transport fault: ls = the lines sent completely, c = what followed before the connection was cut *)
+Definition chk_client_cut (max : N) (status : Z) (ls : list line) (c : cutpoint) (got : list line) (code : N) : bool :=
+  let '(d, r) := client_stream_cut true max status ls c in
+  eqb_list eqb_line d got && N.eqb (cres_code r) code.
+
+(** /v1/chat/completions stream: merging the observed tool-call deltas by index gives the calls of the model's native stream *)
+Definition eqb_pair (a b : str * str) : bool := eqb_str (fst a) (fst b) && eqb_str (snd a) (snd b).
+Definition chk_v1chat_reassemble (t : ptable) (tools : bool) (o : rout) (obs : list sse) : bool :=
+  eqb_list eqb_pair (reassemble (sse_calls obs)) (strip (rec_calls (chat_stream (P_of t) (mkCc true tools) o))).
